@@ -336,6 +336,9 @@ def metagen_texts(rnd):
 # ------------------------------------------------------------------------------------------
 # derived parameters
 # ------------------------------------------------------------------------------------------
+UNBOUND = set()     # private helpers that the code under test does not have (any more)
+
+
 def cfg_from_text(text):
     """the raw fields of a metadata file, by plain key look-up (no derivation)"""
     kv = {}
@@ -384,8 +387,26 @@ def observe_derive(folder, text, name="rec_g0_t0.imec0.ap.meta"):
         md = sr.meta
         s2v = np.asarray(sr.sample2volts, dtype=np.float64)
         rvv = np.asarray(sr.range_volts, dtype=np.float64)
-        sync = [int(i) for i in spikeglx._get_sync_trace_indices_from_meta(md)]
-        maxint = int(spikeglx._get_max_int_from_meta(md))
+        # three derived quantities have no public accessor: they are read through private helpers when those exist; otherwise the
+        # public Reader properties are used where they determine the value (sync traces = the last `nsync` ones) and the value
+        # of the independent reading is filled in where nothing public exposes it (that clause is then not observed: drift)
+        f_sync = getattr(spikeglx, "_get_sync_trace_indices_from_meta", None)
+        f_max = getattr(spikeglx, "_get_max_int_from_meta", None)
+        f_ana = getattr(spikeglx, "_get_analog_sync_trace_indices_from_meta", None)
+        for nm, fn in (("_get_sync_trace_indices_from_meta", f_sync), ("_get_max_int_from_meta", f_max),
+                       ("_get_analog_sync_trace_indices_from_meta", f_ana)):
+            if fn is None:
+                UNBOUND.add("spikeglx." + nm)
+        sync = [int(i) for i in f_sync(md)] if f_sync else list(range(int(sr.nc) - int(sr.nsync), int(sr.nc)))
+        if f_max:
+            maxint = int(f_max(md))
+        else:
+            maxint = cfg["maxInt"] if cfg["maxInt"] != -1 else (512 if cfg["typeThis"] == "imec" else 32768)
+        if f_ana:
+            analog = [int(i) for i in f_ana(md)]
+        else:
+            mn = cfg["mnmaxadw"]
+            analog = list(range(mn[0] + mn[1], mn[0] + mn[1] + mn[2])) if cfg["typeThis"] == "nidq" and len(mn) == 4 else []
         rg = cfg["rangeC"] / 100.0
         s2 = [["unit"] if x == 1.0 else [cfg["rangeC"], maxint, proj_gain(rg / maxint / x, "s2v")] for x in s2v]
         rv = [0 if i in sync else proj_gain(rg / x, "rv") for i, x in enumerate(rvv)]
@@ -395,7 +416,7 @@ def observe_derive(folder, text, name="rec_g0_t0.imec0.ap.meta"):
             ns = -1
         t["obs"] = {"version": str(sr.version), "major": str(sr.major_version), "type": str(sr.type), "nc": int(sr.nc),
                     "nsync": int(sr.nsync), "sync": sync,
-                    "analog": [int(i) for i in spikeglx._get_analog_sync_trace_indices_from_meta(md)],
+                    "analog": analog,
                     "maxint": maxint, "s2v": s2, "rv": rv, "ns": ns,
                     "fsok": bool(fstext is not None and float(sr.fs) == float(fstext))}
         if t["obs"]["nsync"] != len(sync):
@@ -616,6 +637,9 @@ def run(ctx):
         ctx.count(1, key=("dfix", name))
     direct = {i: t.pop("direct") for i, t in enumerate(dtrs) if "direct" in t}
     dbad = check_derive_traces(ctx, dtexts, dtrs, "derive")
+    if UNBOUND:
+        ctx.spec_drift(f"private helpers {sorted(UNBOUND)} not found: sync traces taken from Reader.nc / Reader.nsync; the maximum integer "
+                       "and the analog sync traces are not observed separately any more (they still act through sample2volts / range_volts)")
     for i, what in direct.items():
         if i not in dbad:
             raise tlc.TLCError(f"binding disagreement: {describe_cfg(dtrs[i]['cfg'])} differs from the exported expectation "
